@@ -873,6 +873,14 @@ def prove(c, label, extra=None):
             if c:
                 p.stats.unsat += 1
                 return
+            # concretely false: a counterexample only if the path condition (incl. lazily added assumptions) is
+            # satisfiable - otherwise the path is infeasible and is dropped
+            r0 = p.check()
+            if r0 == z3.unsat:
+                raise PathAbort("assumptions infeasible")
+            if r0 == z3.unknown:
+                raise Unsupported(f"solver unknown on path condition at obligation {label}")
+            p.dirty = False
             raise ProofFailed(label, p.model() or {}, extra)
     neg = z3.Not(c.t)
     if p.dirty:
